@@ -485,10 +485,19 @@ func (it *Interp) globalCell(g *ssa.Global) *Cell {
 	return c
 }
 
+// builtPkgs: packages whose Build has completed. A function of a package that another worker is still building may
+// already have some of its blocks (fn.Blocks != nil) but no parameters or terminators yet, so "has a body" is never
+// decided by looking at the function: the caller waits for the package's build to complete first.
+var builtPkgs sync.Map
+
 func ensureBuilt(pkg *ssa.Package) {
+	if _, ok := builtPkgs.Load(pkg); ok {
+		return
+	}
 	buildMu.Lock()
 	pkg.Build()
 	buildMu.Unlock()
+	builtPkgs.Store(pkg, true)
 }
 
 // ensureInit evaluates the synthesized package initialiser leniently: calls that cannot be
@@ -919,10 +928,10 @@ func (it *Interp) call(fn *ssa.Function, args []Value, binds []Value) (ret Value
 	if isIntrinsicName(fn.Name()) && fn.Signature.Recv() == nil {
 		return it.intrinsic(fn, args)
 	}
+	if fn.Pkg != nil {
+		ensureBuilt(fn.Pkg)
+	}
 	if fn.Blocks == nil {
-		if fn.Pkg != nil {
-			ensureBuilt(fn.Pkg)
-		}
 		if fn.Blocks == nil {
 			if h := prefixIntercept(name); h != nil {
 				it.stubsUsed[name] = true
